@@ -910,6 +910,7 @@ func runC13(c *Ctx) error {
 	x.fixedHistory()
 	x.valueVsText()
 	x.endToEnd(c.rng.Fork())
+	x.stringResults(c.rng.Fork())
 	x.fixedCases()
 	return nil
 }
